@@ -35,7 +35,9 @@ class AddOpCode(Spec):
     fields = FIELDS; consts = CONSTS
     constructors = {'schema_py_generated.OperatorCodeT': []}
     def bind(self, E, p):
-        h = p.heap; codes = z3.Const('codes', Ref); code = z3.Int('op_code')
+        h = p.heap
+        for nme in ('builtinCode', '$len', '$items:ref'): h.arr(nme)
+        h = h.copy(); codes = z3.Const('codes', Ref); code = z3.Int('op_code')       # snapshot of the entry heap
         p.env['op_code'] = vint(code); p.env['model_op_codes'] = V('list[ref]', codes)
         self.codes, self.code = codes, code; self.n0 = ln(h, codes); self.it0 = items_r(h, codes); self.bc0 = h.arr('builtinCode')
         p.pc += [codes != NULL, h.alloc[codes], self.n0 >= 0]
@@ -64,7 +66,9 @@ class AddActivationTensor(Spec):
     fields = FIELDS; consts = CONSTS
     constructors = {'schema_py_generated.TensorT': []}
     def bind(self, E, p):
-        h = p.heap; sg = z3.Const('subgraph', Ref); self.sg = sg; self.tl = h.load(sg, 'tensors'); self.n0 = ln(h, self.tl); self.it0 = items_r(h, self.tl)
+        h = p.heap
+        for nme in ('tensors', '$len', '$items:ref', 'name', 'shape', 'type', 'buffer'): h.arr(nme)
+        h = h.copy(); sg = z3.Const('subgraph', Ref); self.sg = sg; self.tl = h.load(sg, 'tensors'); self.n0 = ln(h, self.tl); self.it0 = items_r(h, self.tl)
         self.name = z3.Const('tensor_name', Str); self.shape = z3.Const('shape', Ref); self.tt = z3.Int('tensor_type')
         p.env.update(tensor_name=V('str', self.name), shape=V('ref', self.shape), tensor_type=vint(self.tt), subgraph=V('ref', sg))
         p.pc += [sg != NULL, self.tl != NULL, h.alloc[sg], h.alloc[self.tl], self.n0 >= 0, sg != self.tl]
